@@ -28,10 +28,10 @@ type c10Case struct {
 }
 
 type c10 struct {
-	progs []Prog
+	progs  []Prog
 	byName map[string]int
-	mu    sync.Mutex
-	ref   map[string]c10Ref
+	mu     sync.Mutex
+	ref    map[string]c10Ref
 }
 
 type c10Ref struct {
